@@ -85,7 +85,10 @@ func streamWL(x *mon.Ctx) {
 	selftest(x)
 	bf := newBufs(4096)
 	defer bf.free()
-	reps := x.Scale(1, 10)
+	reps := x.Scale(1, 16)
+	if raceBuild(x) {
+		reps = x.Scale(1, 3)
+	}
 	for _, s := range allSpecs {
 		if s.mode == "hctr" {
 			continue
@@ -157,7 +160,7 @@ func streamCase(c *mon.Case, bf *bufs, s spec, unit, n int, kind string, hi bool
 				dst = bf.dst.Side(k, hi)
 			}
 			ok := c.Call(what, func() { f(dst, src) })
-			ok = c.CheckGuards(what, bf.all()...) && ok
+			ok = c.CheckGuards(what, bf.dst, bf.src) && ok
 			c.Event("stream_calls", 1)
 			if k == 0 {
 				c.Event("stream_empty_calls", 1)
@@ -173,6 +176,8 @@ func streamCase(c *mon.Case, bf *bufs, s spec, unit, n int, kind string, hi bool
 			}
 			off += k
 		}
+		// the mode object owns copies of key and IV: the caller's must be intact
+		c.CheckGuards(s.String()+" ("+path+") history", bf.key, bf.key2, bf.iv)
 	}
 }
 
